@@ -47,9 +47,14 @@ def scope_raw(f, rep):
     r = run_fn(I, name, args); rep.analysed.add(name)
     if I.tops or not isinstance(r, SeqV): rep.undecided('interval-writes', name, I.tops, b['sp']); return
     base = list(r.segs); stores = list(r.stores)
+    if not stores:
+        # built by plain concatenation: the vector's own segments are the result, nothing to re-assemble
+        rep.info.append({'Scope::raw': 'no in-place writes; result compared directly'})
+        return _scope_agree(f, rep, b, list(base), [])
     ok = len(stores) == 2 and stores[0][0][0] == 'within' and stores[1][0][0] == 'range'
+    if not ok:
+        rep.undecided('interval-writes', name + ':shape', [('in-place writes other than one copy_within followed by one copy_from_slice: %r' % ([s[0][0] for s in stores],), b['sp'])], b['sp']); return
     rep.ob('interval-writes', name + ':shape', ok, 'expected one copy_within and one copy_from_slice on the resized vector, got %r' % ([s[0][0] for s in stores],), sp=b['sp'])
-    if not ok: return
     (_, s_lo, s_hi, dest), _ = stores[0]
     (_, w_lo, w_hi), P = stores[1]
     total = seqlen(base)
@@ -75,6 +80,9 @@ def scope_raw(f, rep):
     rep.ob('interval-writes', name + ':source-on-segment-boundaries', old_tail is not None and head is not None, 'the moved range does not coincide with appended pieces', sp=b['sp'])
     if old_tail is None or head is None: return
     result = head + list(P) + old_tail
+    _scope_agree(f, rep, b, result, facts)
+
+def _scope_agree(f, rep, b, result, facts):
     # reference: impl Aml for Scope with children as one byte string X
     I2 = new_interp(f)
     cb = fns_of(f, 'aml::Scope')['new']
